@@ -2711,14 +2711,23 @@ XPathProcessorImpl::LocationPathPattern()
 
     m_expression->appendOpCode(XPathExpression::eOP_LOCATIONPATHPATTERN);
 
+    // An alternative that consists of '/', or of an id() or key() call, is
+    // complete.  Any other one needs at least one step pattern, as does
+    // one that ends with '//'.
+    bool    fNeedsStep = true;
+
     if(lookahead(XalanUnicode::charLeftParenthesis, 1) == true &&
                 (tokenIs(s_functionIDString) == true ||
                  tokenIs(s_functionKeyString) == true))
     {
         IdKeyPattern();
 
+        fNeedsStep = false;
+
         if(tokenIs(XalanUnicode::charSolidus) == true && lookahead(XalanUnicode::charSolidus, 1) == true)
         {
+            fNeedsStep = true;
+
             const int   newOpPos = m_expression->opCodeMapLength();
 
             // Tell how long the step is without the predicate
@@ -2755,6 +2764,8 @@ XPathProcessorImpl::LocationPathPattern()
                                        theArgs);
 
             m_expression->appendOpCode(XPathExpression::eNODETYPE_ROOT);
+
+            fNeedsStep = false;
         }
 
         m_expression->updateOpCodeLength(newOpPos);
@@ -2768,12 +2779,17 @@ XPathProcessorImpl::LocationPathPattern()
         {
             RelativePathPattern();
         }
-        else if (lookahead(XalanUnicode::charVerticalLine, -1) == true)
+        else if (fNeedsStep == true ||
+                 lookahead(XalanUnicode::charVerticalLine, -1) == true)
         {
             error(
                 XalanMessages::UnexpectedTokenFound_1Param,
                 m_token);
         }
+    }
+    else if (fNeedsStep == true)
+    {
+        error(XalanMessages::EmptyExpression);
     }
 
     // Terminate for safety.
